@@ -5,6 +5,14 @@ V = os.path.dirname(os.path.abspath(__file__))
 reg = json.load(open(os.path.join(V, "registry.json")))
 txt = json.load(open(os.path.join(V, "manifest_text.json")))
 props = [json.loads(l) for l in open(os.path.join(V, "properties.jsonl"))]
+import subprocess
+try:
+    hc = subprocess.run(["git", "-C", "/repo", "log", "--format=%h", "--reverse", "--", "*zz_verif_contracts.go"], capture_output=True, text=True).stdout.split()
+    if hc:
+        txt["hook_commits"] = hc
+        json.dump(txt, open(os.path.join(V, "manifest_text.json"), "w"), indent=1)
+except Exception:
+    pass
 checks = []
 claimed = set()
 for p in props:
